@@ -1,0 +1,117 @@
+//! Verification hooks (cargo feature `verif`, off by default).
+//!
+//! Nothing in here is part of the supported API. With the feature off this module does not
+//! exist and no call site is compiled in. With the feature on and no hook installed, each
+//! site costs one relaxed load.
+//!
+//! A hook is a plain `fn(site, a, b)`. It is called *on the thread that executes the site*,
+//! so a hook may delay, suspend or hand over a scheduling token; it must not call back into
+//! the map it is observing.
+#![allow(missing_docs, missing_debug_implementations)]
+
+use std::sync::atomic::{AtomicPtr, Ordering};
+
+/// `Atomic::load` (a = address of the atomic)
+pub const ATOMIC_LOAD: u32 = 1;
+/// `Atomic::store` (a = address of the atomic)
+pub const ATOMIC_STORE: u32 = 2;
+/// `Atomic::swap` (a = address of the atomic)
+pub const ATOMIC_SWAP: u32 = 3;
+/// `Atomic::compare_exchange` (a = address of the atomic)
+pub const ATOMIC_CAS: u32 = 4;
+/// access to `size_ctl`, `transfer_index`, `count` or a tree bin's `lock_state` (a = address)
+pub const RAW_ATOMIC: u32 = 5;
+
+/// about to call `.lock()` on a bin mutex (a = address of the `parking_lot::Mutex<()>`)
+pub const BEFORE_LOCK: u32 = 10;
+/// `.lock()` returned (a = address of the mutex)
+pub const AFTER_LOCK: u32 = 11;
+
+/// transfer: both new bins are published, the forwarding marker is not yet (a = old table, b = i)
+pub const WIN_TRANSFER_BEFORE_FORWARD: u32 = 20;
+/// transfer: between the store of the low and of the high bin (a = old table, b = i)
+pub const WIN_TRANSFER_BETWEEN_BINS: u32 = 21;
+/// transfer: forwarding marker stored, old nodes not yet retired (a = old table, b = i)
+pub const WIN_TRANSFER_AFTER_FORWARD: u32 = 22;
+/// bin lock taken and head re-validated (put / compute / replace_node / clear / treeify / transfer)
+pub const WIN_HEAD_VALIDATED: u32 = 23;
+/// a node was unlinked from its bin and is about to be retired
+pub const WIN_UNLINKED: u32 = 24;
+/// `put` is about to call `treeify_bin` (the bin lock is no longer held)
+pub const WIN_BEFORE_TREEIFY: u32 = 25;
+/// tree bin: `first` was stored, tree links are not yet
+pub const WIN_TREE_FIRST_STORED: u32 = 26;
+/// `TreeBin::find` holds a read lock
+pub const WIN_TREE_READ_LOCKED: u32 = 27;
+/// a compute / retain closure is about to be called with the bin lock held
+pub const WIN_BEFORE_CLOSURE: u32 = 28;
+/// the root (write) lock of a tree bin was taken
+pub const WIN_TREE_ROOT_LOCKED: u32 = 29;
+
+/// about to call `park()` (a = address of the tree bin)
+pub const PRE_PARK: u32 = 30;
+/// `unpark()` was called on the waiter (a = address of the `Thread` handle)
+pub const AFTER_UNPARK: u32 = 31;
+/// one iteration of a spin loop (`init_table` lost the race, `contended_lock`)
+pub const SPIN: u32 = 32;
+/// `park()` returned (a = address of the tree bin)
+pub const POST_PARK: u32 = 33;
+
+/// a resize of the table at address `a` with `b` bins was initiated by this thread
+pub const EV_RESIZE_INITIATED: u32 = 40;
+/// this thread entered `transfer` as a helper (a = old table)
+pub const EV_HELPER_JOINED: u32 = 41;
+/// bin `b` of old table `a` was forwarded by this thread
+pub const EV_BIN_FORWARDED: u32 = 42;
+/// table `b` replaced table `a` as the current table (emitted by the publishing thread
+/// after the swap and before `size_ctl` is released)
+pub const EV_TABLE_PUBLISHED: u32 = 43;
+/// this thread left `transfer` (a = old table)
+pub const EV_TRANSFER_LEFT: u32 = 44;
+/// a list bin was replaced by a tree bin (a = table, b = index)
+pub const EV_TREEIFIED: u32 = 45;
+/// a tree bin was replaced by a list bin on removal (a = table, b = index)
+pub const EV_UNTREEIFIED: u32 = 46;
+/// a tree bin was split by a resize (a = number of low nodes, b = number of high nodes)
+pub const EV_TREE_SPLIT: u32 = 47;
+/// the table was lazily created (a = table, b = bins)
+pub const EV_TABLE_INIT: u32 = 48;
+/// a traverser followed a forwarding marker (a = table, b = index)
+pub const EV_ITER_FORWARDED: u32 = 49;
+/// the writer in `contended_lock` set the WAITER bit
+pub const EV_WAITER_SET: u32 = 50;
+/// a list bin was split by a resize (a = nodes cloned, b = index)
+pub const EV_LIST_SPLIT: u32 = 51;
+
+/// The type of a hook.
+pub type Hook = fn(site: u32, a: usize, b: usize);
+
+static HOOK: AtomicPtr<()> = AtomicPtr::new(std::ptr::null_mut());
+
+/// Installs (or, with `None`, removes) the process-wide hook.
+pub fn set_hook(hook: Option<Hook>) {
+    HOOK.store(
+        hook.map_or(std::ptr::null_mut(), |h| h as *mut ()),
+        Ordering::SeqCst,
+    );
+}
+
+/// Executes the hook for `site`, if one is installed.
+#[inline]
+pub fn hit(site: u32, a: usize, b: usize) {
+    let h = HOOK.load(Ordering::Relaxed);
+    if !h.is_null() {
+        // safety: the only non-null values ever stored are valid `Hook`s
+        let h: Hook = unsafe { std::mem::transmute::<*mut (), Hook>(h) };
+        h(site, a, b);
+    }
+}
+
+#[inline]
+pub(crate) fn addr<T: ?Sized>(t: &T) -> usize {
+    t as *const T as *const () as usize
+}
+
+pub use crate::map::verif_map::{
+    constants, resize_stamp, BinDump, Constants, NodeDump, TableDump, TreeNodeDump,
+};
